@@ -14,6 +14,8 @@ def run_e1(prop, tier, seed, technique, plan, monitor, quick_budget, thorough_bu
     """plan: list of (Scenario, k) explored in order; a wall-clock cap may cut the tail (reported, never hidden)."""
     common.bootstrap(suite)
     engine.install_memo()
+    if callable(plan):
+        plan = plan()  # scenarios may execute the code under test (replay histories): only after the bootstrap
     rep = common.Report(prop, tier, seed, technique)
     rep.rule = rule
     rep.assumptions = list(assumptions)
